@@ -730,6 +730,8 @@ func runC36(p *c36Plan) (string, c36Stats, error) {
 				// a second answer to an open, or an answer to a channel the peer opened itself
 				mustEnd = true
 				r.stats.dupConfirm++
+			case "unknown":
+				mustEnd = true // an answer for a channel that does not exist must be rejected
 			}
 			alive, v, e := r.barrier(what)
 			if v != "" || e != nil {
@@ -815,6 +817,9 @@ func runC36(p *c36Plan) (string, c36Stats, error) {
 			if v != "" || e != nil {
 				return finish(v, e)
 			}
+			if alive && kind == "unknown" && st.S == "ok" {
+				return finish(fmt.Sprintf("%s was not rejected: the connection is still up", what), nil)
+			}
 			if !alive {
 				r.stats.ended = what
 				return finish("", nil)
@@ -836,14 +841,17 @@ func runC36(p *c36Plan) (string, c36Stats, error) {
 			id, _, kind := r.resolve(st)
 			r.send(mx.WindowAdjust(id, st.A))
 			what = fmt.Sprintf("window adjust %d for a %s channel", st.A, kind)
+			mustEnd = kind == "unknown"
 		case "eof":
 			id, _, kind := r.resolve(st)
 			r.send(mx.EOF(id))
 			what = "eof for a " + kind + " channel"
+			mustEnd = kind == "unknown"
 		case "close":
 			id, c, kind := r.resolve(st)
 			r.send(mx.Close(id))
 			what = "close for a " + kind + " channel"
+			mustEnd = kind == "unknown"
 			if c != nil {
 				r.markClosed(c)
 			}
@@ -910,6 +918,7 @@ func runC36(p *c36Plan) (string, c36Stats, error) {
 				}
 			}
 			what = fmt.Sprintf("%d unsolicited channel replies for a %s channel", st.N, kind)
+			mustEnd = kind == "unknown"
 			if st.N > r.stats.staleMax {
 				r.stats.staleMax = st.N
 			}
@@ -1185,6 +1194,9 @@ func runC36(p *c36Plan) (string, c36Stats, error) {
 		}
 		if mustLive && !alive {
 			return finish(what+" ended the connection", nil)
+		}
+		if mustEnd && alive {
+			return finish(what+" was not rejected: the connection is still up", nil)
 		}
 		if !alive {
 			r.stats.ended = what
